@@ -126,6 +126,16 @@ func GenerateReject(t *rapid.T, px string) (bad, control gobatch.Program, kind s
 		return bad, control, "", false
 	}
 	kind = kinds[g.Pick(len(kinds), "bad-kind")]
+	// ambiguity and method-set kinds are rarer than impossible assertions: prefer them
+	var rare []string
+	for _, k := range kinds {
+		if k != "impossible-type-assertion" && k != "impossible-type-switch-case" {
+			rare = append(rare, k)
+		}
+	}
+	if len(rare) > 0 && g.Chance(3, 4, "bad-prefer-rare") {
+		kind = rare[g.Pick(len(rare), "bad-rare-kind")]
+	}
 	var of []badSite
 	for _, s := range sites {
 		if s.kind == kind {
